@@ -5,9 +5,12 @@
         sends (segments taken from KINDS: r=[IReq] rr=[IReq;IReq] h=[IHead] b=[IBody] hb rh ...),
         the application writes sizes from SIZES (dot separated); ERRS=1 adds failing
         send()/recv() answers.  Answer:
-        "states=N transitions=M quiescent=Q bad=B kf=K truncated=0|1 [witness=TOKENS]"
-        bad = quiescent states outside the known-finding classes where c05_ok is false,
-        kf  = quiescent states inside a class where c05_ok is false.
+        "states=N transitions=M quiescent=Q bad=B kf=K invbad=I truncated=0|1 [witness=TOKENS] ..."
+        bad = quiescent states outside the known-finding classes where c05_ok is false, plus
+              states quiescent up to workers inside the application where app_ok is false
+              (for send_bytes <= watermark, watermark >= 1),
+        kf  = quiescent states inside a class where c05_ok is false,
+        invbad = reachable states where inv_ok (Proof/ChanWakeInv.v) is false.
    trace LOOKAHEAD SB HW POLL2 NW MODE EV ...   (see below: alignment of a real trace)     *)
 open Model
 open Wvio
@@ -23,7 +26,7 @@ let item_s = function IReq -> "r" | IHead -> "h" | IBody -> "b"
 let items_s l = if l = [] then "-" else String.concat "" (List.map item_s l)
 let site_s = function SWr n -> "w" ^ si (zi n) | SEnd -> "e"
 let hc_s = function
-  | HcRead (ww, eof) -> "rd" ^ b01 ww ^ b01 eof | HcFlush -> "fl" | HcWrite -> "wr" | HcFlushL -> "fL"
+  | HcRead (ww, eof) -> "rd" ^ b01 ww ^ b01 eof | HcWrite -> "wr" | HcFlushL -> "fL"
   | HcSc (its, ww) -> "sc" ^ items_s its ^ b01 ww
 
 let io_s = function
@@ -38,7 +41,6 @@ let io_s = function
   | IoScF (i, w) -> "ScF" ^ items_s i ^ b01 w | IoScRel (i, w) -> "ScRel" ^ items_s i ^ b01 w
   | IoScX1 -> "ScX1" | IoScX2 -> "ScX2" | IoRcvRel w -> "RcvRel" ^ b01 w
   | IoHW1 -> "HW1" | IoHW2 -> "HW2" | IoTry -> "Try"
-  | IoFlU -> "FlU" | IoFlUR n -> "FlUR" ^ si (zi n) | IoFlUW v -> "FlUW" ^ si (zi v)
   | IoFlL -> "FlL" | IoNfy -> "Nfy" | IoNfy2 -> "Nfy2" | IoRelL -> "RelL" | IoRelX -> "RelX" | IoSetWc -> "SetWc"
   | IoHW3 -> "HW3" | IoHW4 -> "HW4" | IoHW5 -> "HW5" | IoHW6 -> "HW6" | IoHW7 -> "HW7"
   | IoHC k -> "HC" ^ hc_s k | IoHCb k -> "HCb" ^ hc_s k | IoHCc k -> "HCc" ^ hc_s k
@@ -57,7 +59,7 @@ let w_s = function
   | WWsF b -> "WsF" ^ b01 b | WWs6 -> "Ws6" | WWsP -> "WsP" | WWsRel -> "WsRel" | WCdRel -> "CdRel"
   | WCl1 -> "Cl1" | WCl2 -> "Cl2" | WCl3 -> "Cl3" | WCl4 -> "Cl4"
   | WK1 -> "K1" | WK3 -> "K3" | WK4 -> "K4" | WK5 -> "K5" | WK5b -> "K5b" | WK6 -> "K6"
-  | WScA -> "ScA" | WSc1 -> "Sc1" | WSc2 t -> "Sc2." ^ si (zi t) | WScF -> "ScF"
+  | WScA -> "ScA" | WSc1 -> "Sc1" | WScF -> "ScF"
   | WScRel -> "ScRel" | WScX -> "ScX" | WScX2 -> "ScX2"
   | WK7 -> "K7" | WEnd1 -> "End1" | WEnd2 -> "End2"
 
@@ -99,7 +101,7 @@ let choices (s : state) (sizes : int list) (kinds : item list list) (budget : in
   let ioc = match s.io with
     | IoRecv _ -> [CIoRecv (true, false)] @ (if s.gone && s.rx = [] then [CIoRecv (false, true)] else [])
                   @ (if errs then [CIoRecv (false, false); CIoRecv (false, true)] else [])
-    | IoScF _ | IoFlU | IoFlL -> CIo :: List.map (fun r -> CIoSend r) (sends s errs)
+    | IoScF _ | IoFlL -> CIo :: List.map (fun r -> CIoSend r) (sends s errs)
     | IoHCb _ -> [CIoClose false; CIoClose true]
     | _ -> [CIo] in
   let wsc = List.concat (List.mapi (fun i p ->
@@ -229,7 +231,7 @@ let trace c nw mode (evs : string list) : string =
        | IoRecv _ -> (match peek th "Rv" with
                       | Some a -> Some (CIoRecv (a.[0] = '1', a.[1] = '1'), (fun () -> pop th "Rv"))
                       | None -> None)
-       | IoScF _ | IoFlU | IoFlL -> send (function None -> CIo | Some r -> CIoSend r)
+       | IoScF _ | IoFlL -> send (function None -> CIo | Some r -> CIoSend r)
        | IoHCb _ -> (match peek th "Keep" with
                      | Some k -> Some (CIoClose (k = "1"), (fun () -> pop th "Keep"))
                      | None -> Some (CIoClose false, nop))
